@@ -211,4 +211,183 @@ end Ex
 
 end C12
 
+-- ====================================================================== 2. C09: how the secrets are delivered
+section C09
+open TLX.Keylog
+
+variable (info : Nat → Pipeline.Info)
+
+/-- the frame items of a capture, in order (DSB items dropped) -/
+def framesOf (xs : List (Item Keylog.Key)) : List Pkt := xs.filterMap Lemmas.Export.frameOf?
+
+theorem tcpView_framesOf (o : Opts) (xs : List (Item Keylog.Key)) :
+    tcpView o xs = (framesOf xs).filterMap fun p => match classify o (.frame p : Item Keylog.Key) with
+      | .tls q => some q
+      | _ => none := by
+  unfold tcpView framesOf
+  rw [List.filterMap_filterMap]
+  congr 1
+  funext it
+  cases it with
+  | dsb ks => rfl
+  | frame p => simp only [Lemmas.Export.frameOf?, Option.bind_some]; cases classify o (Item.frame p : Item Keylog.Key) <;> rfl
+
+/-- two key logs every session reads the same way: `find_session_secrets` returns the same lines for every client random -/
+def SameSecrets (kl₁ kl₂ : List Keylog.Key) : Prop := ∀ cr, findSessionSecrets kl₁ cr = findSessionSecrets kl₂ cr
+
+theorem genKeys_congr {kl₁ kl₂ : List Keylog.Key} (h : SameSecrets kl₁ kl₂) :
+    Pipeline.genKeys H P kl₁ = Pipeline.genKeys H P kl₂ := by
+  funext v suite cr sr exts comp
+  unfold Pipeline.genKeys
+  rw [h]
+
+/-- a TLS conversation reads the key log only through `find_session_secrets` -/
+theorem connOut_congr {kl₁ kl₂ : List Keylog.Key} (h : SameSecrets kl₁ kl₂) (c : Pipeline.Conn) :
+    Pipeline.connOut H P info c kl₁ = Pipeline.connOut H P info c kl₂ := by
+  have : Pipeline.ops H P kl₁ = Pipeline.ops H P kl₂ := by
+    unfold Pipeline.ops
+    rw [genKeys_congr H P h]
+  unfold Pipeline.connOut
+  rw [this]
+
+/-- **`dsb_position_irrelevant`, TLS.** TLS conversations are decrypted at the END of the run with the key log as it is
+    then (`-s` file, then every DSB of the capture): for two captures with the same frames in the same order, whatever
+    DSB items stand wherever between them, and two `-s` files, such that the final key logs are read alike by every
+    session, the exported TLS conversations are the same, frame by frame. In particular a DSB may be moved ANYWHERE
+    (first, last, between any two packets) — `dsb_moved_tls`. -/
+theorem dsb_position_irrelevant_tls (o : Opts) (fk₁ fk₂ : Option (List Keylog.Key)) (xs ys : List (Item Keylog.Key))
+    (hfr : framesOf xs = framesOf ys) (hk : SameSecrets (keysOf fk₁ xs) (keysOf fk₂ ys)) :
+    tlsFrames H P info o fk₁ xs = tlsFrames H P info o fk₂ ys := by
+  unfold tlsFrames tlsConvs
+  rw [tcpView_framesOf o xs, tcpView_framesOf o ys, hfr]
+  apply List.map_congr_left
+  intro s _
+  unfold convFrames
+  rw [connOut_congr H P info hk]
+
+theorem framesOf_append (a b : List (Item Keylog.Key)) : framesOf (a ++ b) = framesOf a ++ framesOf b := by
+  simp [framesOf]
+
+theorem dsbOnly_append (a b : List (Item Keylog.Key)) : dsbOnly (a ++ b) = dsbOnly a ++ dsbOnly b := by
+  simp [dsbOnly]
+
+/-- moving one DSB from between `a` and `b` to between `b` and `c`, where `b` holds no other DSB -/
+theorem dsb_moved_tls (o : Opts) (fk : Option (List Keylog.Key)) (ks : List Keylog.Key) (a b c : List (Item Keylog.Key))
+    (hb : dsbOnly b = []) :
+    tlsFrames H P info o fk (a ++ .dsb ks :: b ++ c) = tlsFrames H P info o fk (a ++ b ++ .dsb ks :: c) := by
+  apply dsb_position_irrelevant_tls
+  · simp [framesOf, List.filterMap_cons, Lemmas.Export.frameOf?]
+  · intro cr
+    have e1 : dsbOnly (a ++ Item.dsb ks :: b ++ c) = dsbOnly a ++ (ks ++ (dsbOnly b ++ dsbOnly c)) := by
+      simp [dsbOnly]
+    have e2 : dsbOnly (a ++ b ++ Item.dsb ks :: c) = dsbOnly a ++ (dsbOnly b ++ (ks ++ dsbOnly c)) := by
+      simp [dsbOnly]
+    simp only [keysOf, e1, e2, hb, List.nil_append]
+
+/-- the QUIC part of the output: the sessions `handle_quic_packet` builds from the QUIC view of the capture (every
+    datagram with the key log AS IT IS WHEN THE DATAGRAM IS READ), each built out with `-a` or not -/
+def quicFrames (o : Opts) (fk : Option (List Keylog.Key)) (xs : List (Item Keylog.Key)) : List Pipeline.OutPkt :=
+  (quicRun (QuicPipeline.quicMachine mask H P info) o [] (quicView o (fk.getD []) xs)).flatMap
+    fun s => (QuicPipeline.quicMachine mask H P info).out o.metadata s.st
+
+/-- what `run()` hands to the writer, in closed form -/
+theorem framesFrom_explicit (prior : Export.Prior) (args : Args) (fk : Option (List Keylog.Key))
+    (xs : List (Item Keylog.Key)) (o : Opts) (ho : optsOf args = some o) :
+    framesFrom mask H P prior args fk xs info =
+      .ok ((tlsFrames H P info o fk xs).flatten ++ quicFrames mask H P info o fk xs) := by
+  unfold optsOf at ho
+  unfold framesFrom runFrom body
+  rw [Props.C18.reset_is_fresh]
+  cases hpm : Options.getPortMap Options.Src.bare args.mArg with
+  | error e => rw [hpm] at ho; cases ho
+  | ok pm =>
+    rw [hpm] at ho
+    simp only at ho ⊢
+    have hsp : (freshState : Export.Prior).serverPorts = Options.Src.builtin := rfl
+    rw [hsp]
+    cases hp : Options.serverPorts Options.Src.builtin Options.Src.pDefault args.pArg with
+    | error e => rw [hp] at ho; cases ho
+    | ok ports =>
+      rw [hp] at ho
+      simp only [Option.some.injEq] at ho
+      subst ho
+      simp only
+      obtain ⟨h1, h2, h3⟩ := runItems_proj (Pipeline.tlsMachine H P info) (QuicPipeline.quicMachine mask H P info)
+        ⟨ports, args.checksumTest, args.greasy, args.metadata, Options.keepOriginalPorts args.mArg, pm⟩ xs
+        ({ (freshState : Export.Prior).st with keylog := (freshState : Export.Prior).st.keylog ++ fk.getD [] })
+      simp only [exportAll, h1, h2, h3, dsbKeys_eq, List.nil_append, tlsFrames, tlsConvs, keysOf, List.flatMap_def,
+        quicFrames]
+      rfl
+
+/-- the QUIC view of a stretch of the capture that holds neither a DSB nor a QUIC-classified datagram is empty and
+    leaves the key log as it is -/
+theorem quicView_skip (o : Opts) (kl : List Keylog.Key) (b rest : List (Item Keylog.Key))
+    (hb : ∀ it ∈ b, (∃ q, classify o it = .tls q) ∨ (∃ w, classify o it = .ignore w)) :
+    quicView o kl (b ++ rest) = quicView o kl rest := by
+  induction b with
+  | nil => rfl
+  | cons it b ih =>
+    have := ih (fun x hx => hb x (by simp [hx]))
+    rcases hb it (by simp) with ⟨q, hq⟩ | ⟨w, hw⟩
+    · simp only [List.cons_append, quicView, hq, this]
+    · simp only [List.cons_append, quicView, hw, this]
+
+theorem quicView_append_nokeys (o : Opts) (kl : List Keylog.Key) (a rest₁ rest₂ : List (Item Keylog.Key))
+    (h : ∀ kl', quicView o kl' rest₁ = quicView o kl' rest₂) :
+    quicView o kl (a ++ rest₁) = quicView o kl (a ++ rest₂) := by
+  induction a generalizing kl with
+  | nil => exact h kl
+  | cons it a ih =>
+    simp only [List.cons_append, quicView]
+    cases classify o it with
+    | keys ks => exact ih _
+    | tls q => exact ih _
+    | quic q b0 r => simp only [ih]
+    | ignore w => exact ih _
+
+/-- **`dsb_position_irrelevant`, the whole output (partial).** Moving a DSB from in front of a stretch `b` of the capture to
+    behind it changes NOTHING in what `run()` hands to the writer — provided `b` holds no other DSB and no datagram that
+    goes to `handle_quic_packet` (`hb`: TCP segments, ignored frames). MISSING for the full statement: QUIC. A QUIC session
+    processes each datagram with the key log as it is at that moment (`quicView`; quic_session.py derives keys inside
+    `handle_packet`), so a DSB moved behind a QUIC datagram that needs its secrets DOES change the export
+    (`dsb_position_matters_to_the_quic_loop`). -/
+theorem dsb_position_irrelevant_partial (prior : Export.Prior) (args : Args) (fk : Option (List Keylog.Key))
+    (ks : List Keylog.Key) (a b c : List (Item Keylog.Key)) (o : Opts) (ho : optsOf args = some o)
+    (hb : ∀ it ∈ b, (∃ q, classify o it = .tls q) ∨ (∃ w, classify o it = .ignore w)) :
+    framesFrom mask H P prior args fk (a ++ .dsb ks :: b ++ c) info =
+      framesFrom mask H P prior args fk (a ++ b ++ .dsb ks :: c) info := by
+  have hd : dsbOnly b = [] := by
+    rw [← dsbKeys_eq o]
+    unfold dsbKeys
+    rw [List.flatMap_eq_nil_iff]
+    intro it hit
+    rcases hb it hit with ⟨q, hq⟩ | ⟨w, hw⟩
+    · rw [hq]
+    · rw [hw]
+  rw [framesFrom_explicit mask H P info prior args fk _ o ho, framesFrom_explicit mask H P info prior args fk _ o ho,
+    dsb_moved_tls H P info o fk ks a b c hd]
+  congr 2
+  unfold quicFrames
+  congr 2
+  rw [List.append_assoc, List.append_assoc]
+  apply quicView_append_nokeys
+  intro kl'
+  have e1 : quicView o kl' (Item.dsb ks :: (b ++ c)) = quicView o (kl' ++ ks) c := by
+    rw [quicView]; simp only [classify]; exact quicView_skip o _ b c hb
+  have e2 : quicView o kl' (b ++ Item.dsb ks :: c) = quicView o (kl' ++ ks) c := by
+    rw [quicView_skip o _ b _ hb, quicView]; simp only [classify]
+  rw [List.cons_append, e1, e2]
+
+/-- the reason QUIC is excluded above, on the loop itself (recording machines): the same QUIC datagram and the same DSB,
+    in the two orders — the session is handed a key log of 0 keys in one run and of 1 key in the other -/
+theorem dsb_position_matters_to_the_quic_loop :
+    let o : Opts := ⟨[443], false, false, false, true, []⟩
+    let dg : Pkt := ⟨.udp, ⟨[10, 0, 0, 1], 5000⟩, ⟨[10, 0, 0, 8], 443⟩, [0xc0, 0, 0, 0, 1, 1, 7, 0], true, 1⟩
+    let QM := Rec.quic (fun _ => ([], []))
+    ((runItems Rec.tls QM o ⟨[], [], []⟩ [.dsb [9], .frame dg]).quic.map fun s => s.st.log.map (·.2.2.2)) = [[1]] ∧
+    ((runItems Rec.tls QM o ⟨[], [], []⟩ [.frame dg, .dsb [9]]).quic.map fun s => s.st.log.map (·.2.2.2)) = [[0]] := by
+  decide +kernel
+
+end C09
+
 end TLX.Props.ExportInputs
